@@ -23,7 +23,7 @@ from datetime import UTC, datetime
 from pathlib import Path
 from typing import Any
 
-from vf.engine import dbshim
+from vf.engine import dbshim, seams
 from vf.engine.explore import Action, Policy, Run, explore, run_once
 from vf.engine.runner import Broken, Result
 from vf.ref import iso14229 as T
@@ -48,7 +48,7 @@ ASSUMPTIONS = [
 POLICY = Policy(io_while_ready=True, early_timers=False, timer_before_io=True, timer_with_io=False, max_iterations=50000, max_vtime=5000.0)
 G: dict[str, Any] = {}
 TMP = Path(f"/dev/shm/vf-c11-{os.getpid()}")
-BASE_T = 1_700_000_000.0
+BASE_T = seams.BASE_T
 
 
 class WarnCapture(logging.Handler):
@@ -65,8 +65,6 @@ WARN = WarnCapture()
 
 def worker_init() -> None:
     import gallia.command  # noqa: F401
-    import gallia.db.handler as dbh
-    import gallia.services.uds.ecu as ecumod
     from gallia.db.handler import DBHandler
     from gallia.services.uds.core import service
     from gallia.services.uds.core.client import UDSRequestConfig
@@ -80,14 +78,7 @@ def worker_init() -> None:
     root.propagate = False
     root.setLevel(logging.WARNING)
     root.addHandler(WARN)
-    dbh.aiosqlite = dbshim  # type: ignore[attr-defined]
-
-    class VDatetime(datetime):
-        @classmethod
-        def now(cls, tz: Any = None) -> Any:  # type: ignore[override]
-            return datetime.fromtimestamp(BASE_T + asyncio.get_running_loop().time(), tz or UTC)
-
-    ecumod.datetime = VDatetime  # type: ignore[attr-defined]
+    seams.patch_gallia(db=True)
 
     class ScriptTransport(BaseTransport, scheme="script"):  # type: ignore[misc]
         def __init__(self, st: dict[str, Any]) -> None:
@@ -175,6 +166,7 @@ def build(item: dict[str, Any], box: dict[str, Any]) -> Any:
 
     def scenario(run: Run) -> None:
         WARN.msgs = []
+        seams.patch_gallia(db=True)
         worker = dbshim.DbWorker()
         run.add_actor(worker)
         path = TMP / f"db-{os.getpid()}.sqlite"
@@ -341,8 +333,9 @@ def judge(item: dict[str, Any], box: dict[str, Any], choices: list[int], res: Re
         if exc is not None and e["exc_name"] and e["exc_name"] not in exc:
             v(f"row|exception-class|{tag}", f"row {i}: exception column {exc!r} does not name {e['exc_name']}")
             return
-        if abs(t_req - e["send_t"]) > 1e-6:
-            v(f"row|send-time|{tag}", f"row {i}: request_time {t_req} != transmission time {e['send_t']}")
+        prev_t = rows[i - 1][3] if i else BASE_T
+        if t_req > e["send_t"] + 1e-6 or t_req < prev_t - 1e-6:
+            v(f"row|send-time|{tag}", f"row {i}: request_time {t_req} is after the transmission ({e['send_t']}) or before the previous exchange ({prev_t})")
             return
         if rsp_pdu is not None and t_rsp is None:
             v(f"row|receive-time-missing|outcome={e['outcome']}|exception={'yes' if e['exception'] else 'no'}", f"row {i}: reply bytes stored but response_time is NULL ({tag})")
